@@ -720,6 +720,34 @@ class Plan:
             cases[0]["pow2"] = True
             self.add_group("C09", cases, "config_matrix")
 
+    # -- B1c: MANY derive invocations in one compiler process (one corpus binary): small enums of alternating shape, repr and
+    # configuration whose variant names recur with periods around 2^8 -- what the derive remembers between invocations (a
+    # cache, an interner with generation stamps, a counter that wraps, a "first enum wins" static) must not show
+    def many_enums(self, n):
+        rng = random.Random(f"many:{self.seed}")
+        cfgs = [{"feats": [("from_str", {"mode": "match"})], "split": "one"},
+                {"feats": [("as_str", {}), ("from_str", {"mode": "match"}), ("FromStr", {"mode": "match"})], "split": "one"},
+                {"feats": [("as_str", {"mode": "table"}), ("from_str", {"mode": "table"}), ("names", {}), ("iter", {})], "split": "each"},
+                {"feats": [("try_from", {}), ("next", {}), ("iter", {}), ("range", {}), ("Display", {})], "split": "one"},
+                {"feats": [("from_str", {}), ("Debug", {}), ("iter", {"mode": "table_inline"}), ("into", {})], "split": "one"},
+                cfg_full(None, None, None, None)]
+        shapes = [("u8", [1, 2, 3, 4]), ("i8", [-3, -2, 5, 6]), ("u16", [0, 1, 2, 3]), ("i64", [-9, 0, 1, 7]), ("i16", [-2, -1, 0, 1]),
+                  ("u32", [10, 20, 21, 22]), ("i8", [0, 1, 2, 3]), ("usize", [3, 4, 5, 9])]
+        cases = []
+        scripts = {}
+        for k in range(n):
+            r, reals = shapes[(k * 5 + k // 7) % len(shapes)]
+            idents = [f"N{k % 255}", f"M{k % 256}", f"P{k % 257}", f"Q{k}"]
+            order = rng.sample(range(4), 4)
+            vs = [{"ident": idents[i], "real": reals[i], "lit": str(reals[i]), "rename": None} for i in order]
+            key = (r, tuple(reals), tuple(idents))
+            p = prim.Proj(r)
+            pr = sorted({p.model_tmin(), p.model_tmax()} | {p.to_model(x + d) for x in reals for d in (-1, 0, 1) if prim.tmin(r) <= x + d <= prim.tmax(r)})
+            script = make_script(vs, r, pr, random.Random(f"many-script:{k % 3}"), level="light", str_cap=8, pairs_cap=6)
+            cases.append(self.new_case(r, vs, cfgs[(k + k // len(cfgs)) % len(cfgs)], script, f"many:{k}"))
+        # one group without a group property: a group is never split over binaries, so all of them are derived by ONE rustc
+        self.add_group("", cases, "many")
+
     # -- B2: sorted(name) / sorted(value) must not change behaviour either (C09)
     def sorted_cfgs(self, n_decls):
         rng = self.rng
@@ -1184,6 +1212,7 @@ def build_plan(tier, seed):
         pl.names_fixed()
         pl.solo_cfgs()
         pl.pairwise(250)
+        pl.many_enums(530)
         pl.raw_idents()
         pl.alias_shapes()
         pl.perms_reprs(30)
@@ -1212,6 +1241,7 @@ def build_plan(tier, seed):
         pl.names_fixed()
         pl.solo_cfgs()
         pl.pairwise(1 << 30)
+        pl.many_enums(1100)
         pl.raw_idents()
         pl.alias_shapes()
         pl.perms_reprs(150)
